@@ -412,4 +412,16 @@ func (group *Group) delIn() {
 	group.stat.VideoCodec = ""
 	group.stat.VideoWidth = 0
 	group.stat.VideoHeight = 0
+
+	// 依然留在group中的订阅者回到"上行还没有推流"时加入的状态，不再等待上一路输入流的视频关键帧
+	// （否则下一路输入流如果是纯音频，这些订阅者永远收不到数据）
+	for session := range group.rtmpSubSessionSet {
+		session.ShouldWaitVideoKeyFrame = false
+	}
+	for session := range group.httpflvSubSessionSet {
+		session.ShouldWaitVideoKeyFrame = false
+	}
+	for session := range group.rtspSubSessionSet {
+		session.ShouldWaitVideoKeyFrame = false
+	}
 }
